@@ -1,9 +1,11 @@
 (** C09 - Reserved and de-configured IPs are never allocated; reload is lossless (crdIpam layer).
     Property theorems only; proofs in Proofs/IpamP.v. *)
+From Coq Require Import String.
 From stdpp Require Import gmap.
 From Galaxy.Base Require Import Strs.
 From Galaxy.Model Require Import Nets Pool Ipam.
 From Galaxy.Proofs Require Import IpamP.
+From Galaxy.Proofs Require Import IpamResvP.
 Local Open Scope N_scope.
 
 (** every IP handed out by a fresh allocation (AllocateInSubnet, AllocateInSubnetsAndIPRange,
@@ -37,3 +39,41 @@ Print Assumptions reload_lossless.
 Theorem reject_changes_nothing : ∀ s conf lf df, decode_pools conf = None → step s (OConfigure conf lf df) = (s, AErr, []).
 Proof. intros s conf lf df H. simpl. rewrite H. done. Qed.
 Print Assumptions reject_changes_nothing.
+
+(** reserved IPs are never REWRITTEN or REMOVED by a request either.  An allocation request (AllocateSpecificIP,
+    AllocateInSubnet, AllocateInSubnetsAndIPRange) - successful, failed at any store call (an injected fault, or
+    AlreadyExists because of a reservation whose watch event has not been delivered), or rolled back after a partial
+    creation - leaves every object that was in the store before it exactly as it was: in particular an administrator's
+    reservation object ([e_reserved e = true]), delivered or not.  Proofs in Proofs/IpamResvP.v.  The statement holds
+    for ALL objects, not only the reserved ones; the premise [Inv s] is the one asked for (the proof does not use it). *)
+Theorem requests_keep_store_objects : ∀ s o s' r ips, Inv s → fresh_alloc_op o = true →
+  step s o = (s', r, ips) → ∀ x e, i_store s !! x = Some e → i_store s' !! x = Some e.
+Proof. exact IpamResvP.requests_keep_store_objects. Qed.
+Print Assumptions requests_keep_store_objects.
+
+(** in every reachable state: the reservation object survives the request unchanged and its IP is not among the IPs the
+    request hands out *)
+Theorem reservations_survive_requests : ∀ ops o s' r ips, let s := run ipam0 ops in fresh_alloc_op o = true →
+  step s o = (s', r, ips) → ∀ x e, i_store s !! x = Some e → e_reserved e = true → i_store s' !! x = Some e ∧ x ∉ ips.
+Proof. exact reservations_survive_requests_r. Qed.
+Print Assumptions reservations_survive_requests.
+
+(** the premises are satisfiable and each outcome occurs.  One pool 10.100.0.2~10.100.0.3; an administrator has reserved
+    10.100.0.2 and the watch event is not delivered yet, so the address is still free in memory ([resv_state]).
+    (1) AllocateInSubnet picks it: Create answers AlreadyExists, the request fails, the store is what it was;
+    (2) AllocateInSubnetsAndIPRange for [10.100.0.3] and [10.100.0.2]: the first object is created, the second Create
+        fails, the first is deleted again - the store is what it was;
+    (3) AllocateInSubnet picks 10.100.0.3: success; the reservation is untouched and not handed out. *)
+Example reservations_survive_requests_nonvacuous :
+  let s := resv_state in
+  let k := L "sts_ns1_a_a-0"%string in
+  Inv s ∧ map_to_list (i_store s) = [(resv_ip, resv_obj)] ∧ e_reserved resv_obj = true ∧
+  bool_decide (resv_ip ∈ i_unalloc s) = true ∧ bool_decide (resv_ip ∈ i_pending s) = true ∧
+  (let '(s1, r1, ips1) := step s (OAllocInSubnet k resv_sn wattr (Some resv_ip) false) in
+   r1 = AErr ∧ ips1 = [] ∧ map_to_list (i_store s1) = [(resv_ip, resv_obj)]) ∧
+  (let '(s2, r2, ips2) := step s (OAllocRanges k resv_sn [[(resv_ip + 1, resv_ip + 1)]; [(resv_ip, resv_ip)]] wattr None) in
+   r2 = AErr ∧ ips2 = [] ∧ map_to_list (i_store s2) = [(resv_ip, resv_obj)]) ∧
+  (let '(s3, r3, ips3) := step s (OAllocInSubnet k resv_sn wattr (Some (resv_ip + 1)) false) in
+   r3 = AOk ∧ ips3 = [resv_ip + 1] ∧ i_store s3 !! resv_ip = Some resv_obj ∧ is_Some (i_store s3 !! (resv_ip + 1))).
+Proof. exact reservations_survive_requests_ex. Qed.
+Print Assumptions reservations_survive_requests_nonvacuous.
